@@ -92,3 +92,35 @@ def run(ctx):
         fn = ctx.fn(fnp)
         t = H.term(fn['hir'])
         r.eq('drop', t, 'loop[While] if !self.done {{let _ = %s(self)}} else {{break}}' % NEXT, ctx.site(fnp), why='confirmations covered by a dropped iterator must not be lost or re-emitted')
+
+    with ctx.rule('R14.6', 'every way of making a smoother fixes `expected` from the caller or to 1: one struct literal, new() = with_expected_delivery_tag(1), Default = new()', floor=4) as r:
+        WITH = 'confirm::ConfirmSmoother::with_expected_delivery_tag'
+        lits = []
+        for p, fn in sorted(ctx.fns.items()):
+            if 'hir' not in fn or fn.get('cfg_test') or fn.get('mac'):
+                continue  # derive expansions are judged below through the impl table
+            for nd in H.walk(fn['hir']):
+                if nd.get('k') == 'Struct' and H.res_path(nd['res']) == 'confirm::ConfirmSmoother':
+                    lits.append(p)
+        r.eq('one-literal', lits, [WITH], ctx.site(WITH), why='a second construction site can start the sequence anywhere')
+        ev = ctx.evaluator(0)
+        r.eq('with_expected', S.show(ev.run_fn(WITH, [('var', 'expected', -1)])), 'confirm::ConfirmSmoother{expected: expected, out_of_order: std::collections::HashMap::new()}', ctx.site(WITH),
+             why='starts at the given tag with an empty stash')
+        ev = ctx.evaluator(0)
+        r.eq('new', S.show(ev.run_fn('confirm::ConfirmSmoother::new')), WITH + '(1)', ctx.site('confirm::ConfirmSmoother::new'), why='the first delivery tag of a channel in confirm mode is 1')
+        dflt = ctx.impls_of('std::default::Default', 'confirm::ConfirmSmoother')
+        if dflt:
+            DP = '<confirm::ConfirmSmoother as std::default::Default>::default'
+            derived = any(i.get('derived') for i in dflt)
+            ok = (not derived) and ctx.has_fn(DP) and 'hir' in ctx.fn(DP)
+            val = None
+            if ok:
+                ev = ctx.evaluator(0)
+                val = S.show(ev.run_fn(DP))
+            r.check('default', ok and val in ('confirm::ConfirmSmoother::new()', WITH + '(1)'), ctx.site(DP) if ctx.has_fn(DP) else None, built='derived' if derived else val,
+                    expected='ConfirmSmoother::new()', why='a derived Default starts at expected = 0: tags 1, 2, .. are stashed forever and tag 0 is emitted')
+        else:
+            r.ok('default', None, built='no Default impl')
+        # clones copy both fields (derive) -- a hand-written Clone could reset the stash
+        cl = ctx.impls_of('std::clone::Clone', 'confirm::ConfirmSmoother')
+        r.check('clone-derived-or-absent', all(i.get('derived') for i in cl), None, built=[i.get('derived') for i in cl], why='a copy continues from the same state')
